@@ -8,10 +8,18 @@ open Lean XsVerif.Driver XsVerif.Derivation
     {"types":[T..], "elems":[E..], "contentOk":[[ty,variant]..], "fixedOk":[[ty,variant]..],
      "queries":[Q..]}
     T = {"base":k|null,"deriv":"extension"|"restriction"|null,"complex":b,"anyType":b,"anySimple":b,
-         "simpleContent":b,"content":k|null,"abstract":b,"block":["extension"|"restriction"..]}
+         "simpleContent":b,"content":k|null,"abstract":b,"block":["extension"|"restriction"..],
+         "anyAtomic":b,"atomicCls":b,"isList":b,"item":k|null,"isUnion":b,"members":[k..],
+         "unionLike":b,"facets":b,"primUnion":k|null}
+    "quirks":["C07-F1".."C07-F5"]  = behaviours of the pinned code that are switched ON (findings whose
+         status is `known`); every verdict is computed with these, `rr` = with all of them off
     E = {"ty":k,"block":[..],"blockSubst":b,"abstract":b,"nillable":b,"fixed":b,"subst":k|null}
-    Q = {"op":"derived","t":k,"u":k,"d":null|"extension"|"restriction"}      -> {"r":true|false|null}
-      | {"op":"blocked","t":k,"e":k}                                           -> {"r":true|false|null}
+    Q = {"op":"derived","t":k,"u":k,"d":null|"extension"|"restriction"}      -> {"r":true|false|null,"rr":..}
+      | {"op":"blocked","t":k,"e":k}                                           -> {"r":true|false|null,"rr":..}
+      | {"op":"inst","t":k,"u":k}                                              -> {"r":..,"rr":..}
+      | {"op":"substx","head":k,"m":k, + the fields of "elem" but "e"/"declTy"} -> {"errs":[kind..]|null}
+      | {"op":"altT","attrs":[[k,v]..],"alts":[[test|null,ty]..],"dflt":k}     -> {"ty":k}
+            test = ["eq",a,v]|["ne",a,v]|["has",a]|["not",t]|["and",l,r]|["or",l,r]
       | {"op":"elem","e":k,"declTy":k,"xsi":null|"unknown"|k,"nil":null|str,"text":b,"children":b,"variant":k}
                                                                                -> {"errs":[kind..]}
       | {"op":"subst","head":k,"m":k}                                          -> {"v":"accepted|notSubstitute|blocked|fuel"}
@@ -38,11 +46,55 @@ def optMeth (j : Json) (k : String) : Except String (Option Meth) := do
 def meths (j : Json) (k : String) : Except String (List Meth) := do
   (← getStrList j k).mapM parseMeth
 
+def optBool (j : Json) (k : String) : Bool :=
+  match j.getObjVal? k with
+  | .ok (.bool b) => b
+  | _ => false
+
+def natList (j : Json) (k : String) : Except String (List Nat) := do
+  match j.getObjVal? k with
+  | .ok (.arr a) => a.toList.mapM fun x => x.getNat?
+  | _ => pure []
+
 def parseT (j : Json) : Except String TDef := do
   return { base := ← optNat j "base", deriv := ← optMeth j "deriv", complex := ← getBool j "complex",
            anyType := ← getBool j "anyType", anySimple := ← getBool j "anySimple",
            simpleContent := ← getBool j "simpleContent", content := ← optNat j "content",
-           abstract := ← getBool j "abstract", block := ← meths j "block" }
+           abstract := ← getBool j "abstract", block := ← meths j "block",
+           anyAtomic := optBool j "anyAtomic", atomicCls := optBool j "atomicCls",
+           isList := optBool j "isList", item := ← optNat j "item", isUnion := optBool j "isUnion",
+           members := ← natList j "members", unionLike := optBool j "unionLike",
+           facets := optBool j "facets", primUnion := ← optNat j "primUnion" }
+
+def parseTest : Nat → Json → Except String Test
+  | 0, _ => throw "test too deep"
+  | fuel + 1, j => do
+  let parseTest := parseTest fuel
+  let a ← j.getArr?
+  let s (i : Nat) : Except String String := match a[i]? with
+    | some v => v.getStr? | none => throw "test arity"
+  let sub (i : Nat) : Except String Test := match a[i]? with
+    | some v => parseTest v | none => throw "test arity"
+  match (← s 0) with
+  | "eq" => return .eq (← s 1) (← s 2)
+  | "ne" => return .ne (← s 1) (← s 2)
+  | "has" => return .has (← s 1)
+  | "not" => return .not (← sub 1)
+  | "and" => return .and (← sub 1) (← sub 2)
+  | "or" => return .or (← sub 1) (← sub 2)
+  | k => throw s!"test {k}"
+
+def parseInst (q : Json) : Except String Inst := do
+  let xsi ← match q.getObjVal? "xsi" with
+    | .ok .null => pure XsiAttr.absent
+    | .ok (.str _) => pure XsiAttr.unknown
+    | .ok v => XsiAttr.named <$> v.getNat?
+    | .error _ => pure XsiAttr.absent
+  let nil ← match q.getObjVal? "nil" with
+    | .ok (.str s) => pure (some s)
+    | _ => pure none
+  return { xsi, nil, hasText := ← getBool q "text", hasChildren := ← getBool q "children",
+           variant := ← getNat q "variant" }
 
 def parseE (j : Json) : Except String EDecl := do
   return { ty := ← getNat j "ty", block := ← meths j "block", blockSubst := ← getBool j "blockSubst",
@@ -60,38 +112,53 @@ def errName : Err → String
   | .unknownType => "unknownType" | .notDerived => "notDerived" | .blocked => "blocked"
   | .abstractType => "abstractType" | .notNillable => "notNillable" | .nilNotBoolean => "nilNotBoolean"
   | .nilFixed => "nilFixed" | .nilNotEmpty => "nilNotEmpty" | .content => "content"
-  | .fixedValue => "fixedValue" | .fuel => "fuel"
+  | .fixedValue => "fixedValue" | .fuel => "fuel" | .substBlocked => "substBlocked"
+  | .headBlocked => "headBlocked"
 
-def query (h : Hier) (es : List EDecl) (cs : CSem) (fuel : Nat) (q : Json) : Except String Json := do
+def query (qk : Quirks) (h : Hier) (es : List EDecl) (cs : CSem) (fuel : Nat) (q : Json) : Except String Json := do
   match (← getStr q "op") with
   | "derived" =>
-    return Json.mkObj [("r", ob (isDerived fuel h (← getNat q "t") (← getNat q "u") (← optMeth q "d")))]
+    let (t, u, d) := (← getNat q "t", ← getNat q "u", ← optMeth q "d")
+    return Json.mkObj [("r", ob (isDerived qk fuel h t u d)), ("rr", ob (isDerived .repaired fuel h t u d))]
+  | "inst" =>
+    let (t, u) := (← getNat q "t", ← getNat q "u")
+    return Json.mkObj [("r", ob (instType qk fuel h t u)), ("rr", ob (instType .repaired fuel h t u))]
   | "blocked" =>
     let e ← getNat q "e"
     match es[e]? with
     | none => throw "element index"
-    | some E => return Json.mkObj [("r", ob (isBlocked fuel h (← getNat q "t") E.block E.ty))]
+    | some E =>
+      let t ← getNat q "t"
+      return Json.mkObj [("r", ob (isBlocked qk fuel h t E.block E.ty)),
+                         ("rr", ob (isBlocked .repaired fuel h t E.block E.ty))]
   | "elem" =>
     let e ← getNat q "e"
     match es[e]? with
     | none => throw "element index"
     | some E =>
-      let xsi ← match q.getObjVal? "xsi" with
-        | .ok .null => pure XsiAttr.absent
-        | .ok (.str _) => pure XsiAttr.unknown
-        | .ok v => XsiAttr.named <$> v.getNat?
-        | .error _ => pure XsiAttr.absent
-      let nil ← match q.getObjVal? "nil" with
-        | .ok (.str s) => pure (some s)
-        | _ => pure none
-      let i : Inst := { xsi, nil, hasText := ← getBool q "text", hasChildren := ← getBool q "children",
-                        variant := ← getNat q "variant" }
-      let errs := elementErrs fuel h cs E (← getNat q "declTy") i
+      let i ← parseInst q
+      let errs := elementErrs qk fuel h cs E (← getNat q "declTy") i
       return Json.mkObj [("errs", Json.arr (errs.map fun x => Json.str (errName x)).toArray)]
   | "subst" =>
-    let v := match substVerdict fuel h es (← getNat q "head") (← getNat q "m") with
+    let v := match substVerdict qk fuel h es (← getNat q "head") (← getNat q "m") with
       | .accepted => "accepted" | .notSubstitute => "notSubstitute" | .blocked => "blocked" | .fuel => "fuel"
     return Json.mkObj [("v", v)]
+  | "substx" =>
+    let i ← parseInst q
+    match substXsiErrs qk fuel h cs es (← getNat q "head") (← getNat q "m") i with
+    | none => return Json.mkObj [("errs", Json.null)]
+    | some errs => return Json.mkObj [("errs", Json.arr (errs.map fun x => Json.str (errName x)).toArray)]
+  | "altT" =>
+    let attrs ← (← getArr q "attrs").toList.mapM fun a => do
+      let p ← a.getArr?
+      if hsz : p.size = 2 then return ((← p[0].getStr?, ← p[1].getStr?) : String × String) else throw "attr"
+    let alts ← (← getArr q "alts").toList.mapM fun a => do
+      let p ← a.getArr?
+      if hsz : p.size = 2 then
+        let t ← match p[0] with | .null => pure none | v => some <$> parseTest 64 v
+        return ((t, ← p[1].getNat?) : Option Test × Nat)
+      else throw "altT"
+    return Json.mkObj [("ty", selectAltT attrs alts (← getNat q "dflt"))]
   | "alt" =>
     let alts ← (← getArr q "alts").toList.mapM fun a => do
       let p ← a.getArr?
@@ -106,8 +173,14 @@ def handle (j : Json) : Except String Json := do
   let cok ← parsePairs (← j.getObjVal? "contentOk")
   let fok ← parsePairs (← j.getObjVal? "fixedOk")
   let cs : CSem := { contentOk := fun t v => cok.contains (t, v), fixedOk := fun t v => fok.contains (t, v) }
-  let fuel := h.length + es.length + 1
-  let res ← (← getArr j "queries").toList.mapM (query h es cs fuel)
+  let fuel := 2 * h.length + es.length + 1
+  let qs ← match j.getObjVal? "quirks" with
+    | .ok _ => getStrList j "quirks"
+    | .error _ => pure []
+  let qk : Quirks := { contentSelf := qs.contains "C07-F1", listItem := qs.contains "C07-F2",
+                       unionCut := qs.contains "C07-F3", simpleExt := qs.contains "C07-F4",
+                       anyShort := qs.contains "C07-F5" }
+  let res ← (← getArr j "queries").toList.mapM (query qk h es cs fuel)
   return Json.mkObj [("res", Json.arr res.toArray)]
 
 end XsVerif.Driver.C07
